@@ -22,6 +22,7 @@ theorem find_rejects (ends : List Nat) (pos : Nat) :
     findBlock ends pos = none ↔ ∀ e ∈ ends, e < pos :=
   findBlock_none_iff ends pos
 
+/-- a query on a chromosome the strand has no block on is rejected (`ValueError`), never answered from another chromosome's blocks -/
 theorem absent_chromosome_rejected (s : Strand) (chrom : String) (pos : Nat)
     (h : ∀ b ∈ s, (b.chrom == chrom) = false) : labelAt s chrom pos = .error .value_error := by
   unfold labelAt
